@@ -6,6 +6,7 @@ Ev == Rec[l]
 OptDT(r) == IF IsNone(r) THEN NoDT ELSE r
 \* operator forms: the checked result, or the documented panic exactly when the checked form refuses
 OpForm(e, expected) == IF expected = NoDT THEN Has(e, "panic") ELSE NoPanic(e) /\ e.r = expected
+ItSucc(step) == (MaxDay - cur) \div step          \* how many more items the iterator yields from `cur` (it never yields the last day)
 Explains(e) ==
   \/ NoPanic(e) /\
      \/ e.op = "ts.from"   /\ OptDT(e.r) = FromTimestamp(J(e.c), J(e.unit))
@@ -32,6 +33,8 @@ Explains(e) ==
      \/ e.op = "it.start" /\ TRUE
      \/ e.op = "it.next"  /\ e.r = (IF cur + e.step > MaxDay THEN NoDate ELSE cur)
      \/ e.op = "it.back"  /\ e.r = (IF cur - e.step < MinDay THEN NoDate ELSE cur)
+     \/ e.op = "it.nth"   /\ e.r = (IF ItSucc(e.step) >= e.k + 1 THEN cur + e.k * e.step ELSE NoDate)      \* nth(k): k+1 steps, the last one returned
+     \/ e.op = "it.count" /\ e.r = ItSucc(e.step)
      \/ e.op = "it.hint"  /\ e.lo = (MaxDay - cur) \div e.step /\ e.hi = e.lo /\ e.len = e.lo
   \/ e.op = "o.dt.add" /\ OpForm(e, AddDt(e.dt, J(e.d)))
   \/ e.op = "o.dt.sub" /\ OpForm(e, SubDt(e.dt, J(e.d)))
@@ -39,6 +42,8 @@ Explains(e) ==
   \/ e.op = "o.date.sub" /\ (IF DateAddDur(e.n, Neg(J(e.d))) = NoDate THEN Has(e, "panic") ELSE NoPanic(e) /\ e.r = DateAddDur(e.n, Neg(J(e.d))))
   \/ e.op = "o.tz.add" /\ OpForm(e, AddDt(e.u, J(e.d)))
 NextCur(e) == IF e.op = "it.start" THEN e.n
+              ELSE IF e.op = "it.nth" /\ NoPanic(e) THEN cur + (IF ItSucc(e.step) >= e.k + 1 THEN e.k + 1 ELSE ItSucc(e.step)) * e.step
+              ELSE IF e.op = "it.count" /\ NoPanic(e) THEN cur + ItSucc(e.step) * e.step
               ELSE IF e.op = "it.next" /\ NoPanic(e) /\ e.r # NoDate THEN cur + e.step
               ELSE IF e.op = "it.back" /\ NoPanic(e) /\ e.r # NoDate THEN cur - e.step
               ELSE cur
